@@ -108,29 +108,41 @@ func serve(req *GenReq) (resp *GenResp) {
 		n = 1
 	}
 	seen := map[string]bool{}
-	for i := 0; i < n; i++ {
+	gen := func() (string, *countingWriter, error, bool) {
 		m, err := moq.New(moq.Config{SrcDir: req.SrcDir, PkgName: req.PkgName, Formatter: req.Fmt,
 			StubImpl: req.Stub, SkipEnsure: req.SkipEnsure, WithResets: req.WithResets})
 		if err != nil {
-			resp.Err, resp.NewErr = err.Error(), true
-			return
+			return "", nil, err, true
 		}
 		w := &countingWriter{failAfter: req.FailAfter}
 		err = m.Mock(w, req.Args...)
-		resp.Writes, resp.Written = w.writes, w.buf.Len()
-		s := w.buf.String()
+		return w.buf.String(), w, err, false
+	}
+	for i := 0; i < n; i++ {
+		s, w, err, newErr := gen()
+		if err != nil && i > 0 {
+			// the first generation succeeded: a failure now is either the machine
+			// (go list under load) or real nondeterminism - only the second survives a retry
+			s, w, err, newErr = gen()
+		}
 		if i == 0 {
+			if w != nil {
+				resp.Writes, resp.Written = w.writes, w.buf.Len()
+			}
 			resp.Out = s
 			if err != nil {
-				resp.Err = err.Error()
+				resp.Err, resp.NewErr = err.Error(), newErr
+				return
 			}
-		} else if s != resp.Out && resp.Alt == "" {
-			resp.Alt = s
+		} else {
+			if err != nil {
+				s = "ERROR: " + err.Error()
+			}
+			if s != resp.Out && resp.Alt == "" {
+				resp.Alt = s
+			}
 		}
 		seen[s] = true
-		if err != nil {
-			break
-		}
 	}
 	resp.Distinct = len(seen)
 	if req.Install != "" && resp.Err == "" {
@@ -140,19 +152,16 @@ func serve(req *GenReq) (resp *GenResp) {
 			return
 		}
 		defer os.Remove(path)
-		m, err := moq.New(moq.Config{SrcDir: req.SrcDir, PkgName: req.PkgName, Formatter: req.Fmt,
-			StubImpl: req.Stub, SkipEnsure: req.SkipEnsure, WithResets: req.WithResets})
+		s2, _, err, _ := gen()
 		if err != nil {
-			resp.Alt, resp.Distinct = "ERROR(load): "+err.Error(), 2
+			s2, _, err, _ = gen() // see above: retry once
+		}
+		if err != nil {
+			resp.Alt, resp.Distinct = "ERROR: "+err.Error(), 2
 			return
 		}
-		var b bytes.Buffer
-		if err := m.Mock(&b, req.Args...); err != nil {
-			resp.Alt, resp.Distinct = "ERROR(mock): "+err.Error(), 2
-			return
-		}
-		if b.String() != resp.Out {
-			resp.Alt, resp.Distinct = b.String(), 2
+		if s2 != resp.Out {
+			resp.Alt, resp.Distinct = s2, 2
 		}
 	}
 	return
